@@ -98,6 +98,15 @@ def model_check(res, tier):
     tlc_check("MC_Tween.tla", cfgr, workers=2, timeout=600, expect_violation="PropertyHolds", tag="c06r")
 
 
+def generate(*a, **kw):
+    """tlc_generate with one retry (a TLC start-up hiccup is tool trouble, not a verdict)"""
+    try:
+        return tlc_generate(*a, **kw)
+    except ToolError as e:
+        log("retrying TLC generation after: %s" % str(e)[:200])
+        return tlc_generate(*a, **kw)
+
+
 def scen_of(b, ty, src, scale, regress=False):
     sc = {"ty": ty, "mode": "exact", "scale": scale, "v0": b[0]["v0"], "src": src, "steps": b[1:]}
     if regress:
@@ -124,7 +133,7 @@ def gen_tlc(res, tier):
     sim = cfg_text(spec="RSpec", S=S, grid="Grid5", inits=(0, 1), eases="Ease7", delays=(1, 2, 3, 5), ctgts=(1,),
                    maxsets=100000, maxtime=100000, maxc=100000,
                    extra="  D = 30\n  SetFirst = FALSE\nCONSTRAINT Bound\nINVARIANT Dump")
-    bs = uniq(tlc_generate("Gen_Tween.tla", write_cfg("Gen_Tween_sim.cfg", sim), "sim", num=120 if q else 2500,
+    bs = uniq(generate("Gen_Tween.tla", write_cfg("Gen_Tween_sim.cfg", sim), "sim", num=120 if q else 2500,
                            depth=32, timeout=900, tag="c06g"))
     res.notes["tlc_random_walks"] = len(bs)
     for b in bs:
@@ -144,7 +153,7 @@ def gen_tlc(res, tier):
     k = 0
     for name, kw, depth in plans:
         text = cfg_text(spec="GSpec", extra="  D = %d\n  SetFirst = TRUE\nCONSTRAINT Bound\nINVARIANT Dump" % depth, **kw)
-        bs = uniq(tlc_generate("Gen_Tween.tla", write_cfg("Gen_Tween_%s.cfg" % name, text), "bfs", timeout=1800, tag="c06g"))
+        bs = uniq(generate("Gen_Tween.tla", write_cfg("Gen_Tween_%s.cfg" % name, text), "bfs", timeout=1800, tag="c06g"))
         if not bs:
             raise ToolError("bounded-exhaustive generation '%s' produced nothing" % name)
         res.notes["tlc_exhaustive_" + name] = "%d behaviours of %d actions" % (len(bs), depth)
@@ -161,7 +170,7 @@ def gen_finding(res):
     text = cfg_text(spec="GSpec", S=4096, durs=(2,), eases="EaseLin", dts=(1,), delays=(), ctgts=(1,), maxsets=1,
                     maxtime=100000, maxc=1, regress=True,
                     extra="  D = 6\n  SetFirst = TRUE\nCONSTRAINT Bound\nVIEW GView\nINVARIANT WG_Frozen")
-    bs = tlc_generate("Gen_Tween.tla", write_cfg("Gen_Tween_frozen.cfg", text), "bfs", timeout=600, tag="c06g")
+    bs = generate("Gen_Tween.tla", write_cfg("Gen_Tween_frozen.cfg", text), "bfs", timeout=600, tag="c06g")
     scen = [scen_of(b, ty, "tlc-old-model-clock-regress", 4096, regress=True) for b in bs[:1] for ty in ("f64", "db")]
     # hand-written variants: pause, reset to zero, clock removed
     for variant in ("pause", "reset", "removed"):
@@ -229,7 +238,7 @@ def drift_of(scen, sessions):
                 out.append({"session": k + 1, "step": j, "why": "real run ended early", "model": step})
                 break
             re_ = evs[j]
-            fields = ("val", "prev", "fin", "exact", "ia", "ih", "ib") if step["a"] == "upd" else ("tgt",)
+            fields = ("val", "prev", "fin", "exact", "coh", "ia", "ih", "ib") if step["a"] == "upd" else ("tgt",)
             if step["a"] != re_["a"] or any(step[f] != re_.get(f) for f in fields):
                 out.append({"session": k + 1, "step": j, "ty": sc["ty"], "model": {f: step[f] for f in fields},
                             "real": {f: re_.get(f) for f in fields}})
@@ -258,7 +267,7 @@ def run(tier):
     run_kv("c06", sp, tp)
     bad, n_events = tlc_validate("T_C06.tla", os.path.join(SPEC, "T_C06.cfg"), tp, timeout=3000)
     # (a broken build rejects thousands of sessions; the first 200 are turned into replay files)
-    res.notes["rejected_sessions_total"] = len(bad)
+    res.notes["rejected_sessions_listed"] = len(bad)   # T_C06 lists at most 300
     judge(res, PROP, scen, tp, bad[:200])
     res.drift += drift_of(scen, sessions_of(read_ndjson(tp)))
     if not listed:
